@@ -196,6 +196,62 @@ def run(ctx: Ctx) -> None:
                     ok = (isinstance(a, ast.Name) and a.id == m) or rebound or (a is not None and isinstance(a, ast.Constant) and False)
                     ctx.ob("R2.6", f"parser:CxxParser.{fname}|recursive call forwards `{m}` #{_nth(fn, c)}", ok,
                            msg=f"the recursive call `{short(c)}` does not pass `{m}` on: the nested part of the declarator is parsed in a different mode than the outer part", node=c, mod=mod)
+    # ---------------------------------------------------------------- R2.7
+    ctx.rule("R2.7", "inside-out order: a group's suffix is applied before descending into the group; array dimensions recurse before wrapping", minimum=3)
+    fname = "_parse_cv_ptr_or_fn"
+    cfg = pm.cfg(fname)
+    fn = pm.fn(fname)
+    groups = [n for n in cfg.nodes if n.kind == "stmt" and isinstance(n.stmt, ast.Assign) and isinstance(n.stmt.value, ast.Call) and pm.resolve(fname, n.stmt.value) == ("self", "_consume_balanced_tokens")]
+    # the grouping-paren branch is the one followed by a recursive call
+    recs = [n for n in cfg.nodes for c, r in pm.node_calls(fname, n) if r == ("self", fname)]
+    pushes = [n for n in cfg.nodes for c, r in pm.node_calls(fname, n) if r == ("lex", "return_tokens")]
+    wraps = [n for n in cfg.nodes if n.kind == "stmt" and isinstance(n.stmt, ast.Assign) and isinstance(n.stmt.value, ast.Call)
+             and (norm(n.stmt.value.func) == "FunctionType" or pm.resolve(fname, n.stmt.value) == ("self", "_parse_array_type"))]
+    ok = True
+    why = []
+    gp = [g for g in groups if any(cfg.dominates(g, r) and not cfg.in_loop(g) or cfg.dominates(g, r) for r in recs)]
+    main = [g for g in gp if any(cfg.paths_avoiding(g, r, lambda x: x in groups and x is not g) for r in recs)]
+    # for every push-back followed by a recursive call: no suffix wrapping can happen after the push-back
+    checked = 0
+    for p in pushes:
+        # the push-back that is followed, in straight line, by the recursive descent
+        follow = [r for r in recs if cfg.paths_avoiding(p, r, lambda x: x.kind == "test" or (x in pushes and x is not p))]
+        if not follow:
+            continue
+        checked += 1
+        for w in wraps:
+            if cfg.paths_avoiding(p, w, lambda x: x in recs or (x.kind == "test" and x.loop is not None)):
+                ok = False
+                why.append(f"`{short(w.stmt)}` can run after the group's tokens were pushed back: the suffix would bind outside the group's own declarators")
+        for r in follow:
+            for w in wraps:
+                if cfg.paths_avoiding(r, w, lambda x: x.kind == "test" and x.loop is not None):
+                    ok = False
+                    why.append(f"`{short(w.stmt)}` is applied after the recursive descent into the group: the suffix ends up outermost instead of innermost")
+        for r in follow:
+            # the recursive call must take the (possibly suffix-wrapped) type, i.e. the same variable the wraps assign
+            call = [c for c, rr in pm.node_calls(fname, r) if rr == ("self", fname)][0]
+            if not (call.args and isinstance(call.args[0], ast.Name) and all(isinstance(w.stmt.targets[0], ast.Name) and w.stmt.targets[0].id == call.args[0].id for w in wraps if cfg.dominates(w, r) or cfg.paths_avoiding(w, r, lambda x: False))):
+                ok = False
+                why.append("the recursive descent does not start from the suffix-wrapped type")
+    ctx.ob("R2.7", "parser:CxxParser._parse_cv_ptr_or_fn|suffix applied before descending into a group", ok and checked >= 1,
+           msg="; ".join(why) or "grouping-paren anchor vanished", node=fn, mod=mod)
+    at = pm.fn("_parse_array_type")
+    acfg = pm.cfg("_parse_array_type")
+    rec = [n for n in acfg.nodes for c, r in pm.node_calls("_parse_array_type", n) if r == ("self", "_parse_array_type")]
+    cons = [n for n in acfg.nodes for c in n.calls() if isinstance(c.func, ast.Name) and c.func.id == "Array"]
+    ok = len(rec) == 1 and len(cons) == 1 and not acfg.paths_avoiding(cons[0], rec[0], lambda x: False)
+    if ok:
+        rc = [c for c, r in pm.node_calls("_parse_array_type", rec[0]) if r == ("self", "_parse_array_type")][0]
+        ac = [c for c in cons[0].calls() if isinstance(c.func, ast.Name) and c.func.id == "Array"][0]
+        tgt = rec[0].stmt.targets[0].id if isinstance(rec[0].stmt, ast.Assign) and isinstance(rec[0].stmt.targets[0], ast.Name) else None
+        ok = tgt is not None and isinstance(ac.args[0], ast.Name) and ac.args[0].id == tgt and len(rc.args) >= 2 and isinstance(rc.args[1], ast.Name) and rc.args[1].id == tgt
+    ctx.ob("R2.7", "parser:CxxParser._parse_array_type|later dimensions are wrapped first (recursion feeds the element type)", ok,
+           msg="the array parser does not recurse into the following dimensions before wrapping its own: 'int a[2][3]' would come out as 3 arrays of 2", node=at, mod=mod)
+    tr = pm.fn("_parse_trailing_return_type")
+    ok = "AutoSpecifier" in norm(tr) or "_auto_return_typename" in norm(tr)
+    ctx.ob("R2.7", "parser:CxxParser._parse_trailing_return_type|only replaces a plain `auto`", ok and "raise CxxParseError" in norm(tr), msg="a trailing return type is accepted for a declared return type other than plain auto", node=tr, mod=mod, nontrivial=False)
+
     ctors = {c for c, _ in types.classes()}
     for fname in pm.methods:
         for loop, v, c, ok in loops.sticky_locals(pm, fname, ctors):
